@@ -197,7 +197,7 @@ PROPS["C05"].update(
 PROPS["C14"].update(
     level_text="The tree invariants are class invariants proved at every construction site of a relation node in the library (UnaryOperationRelation, BinaryOperationRelation, Transfer, Materialization via reapply/transfer/materialize/_finish_apply): "
                "operation valid on and supported by its target's engine, operands of binary nodes share an engine, joins resolved on columns of both operands, no placeholder operation as node, transfers cross engines; engine/is_locked attribute definitions proved per class; documented no-ops return the relation itself.",
-    level_note=_COMMON_NOTE + "SQL-engine node construction (Select.apply_skip etc.) is not covered here (C17); sql.Engine.transfer re-wraps its argument (a known deviation from 'transfer to the current engine returns the relation itself', see DESIGN F15).",
+    level_note=_COMMON_NOTE + "SQL-engine node construction is covered by C17: every call of _finish_apply / apply_skip in sql/_engine.py and sql/_select.py is an obligation there (that is how F24 -- a calculation node invalid on its target -- was found and repaired); sql.Engine.transfer now conforms instead of re-wrapping (F15 repaired).",
 )
 PROPS["C15"].update(
     level_text="Transfer.simplify (never looks through a locked relation; shortcut has the same rows in the destination engine), Materialization.simplify, base Engine.transfer/materialize (no new node for leaves/materializations, self-transfer is a no-op), "
